@@ -19,7 +19,7 @@ func plans(prop, tier string) []drv.Plan {
 	}
 	type shape struct{ P, W, N int }
 	q := tier == "quick"
-	shapes := []shape{{1, 3, 2}, {2, 1, 1}, {2, 2, 1}, {2, 2, 2}, {2, 2, 3}, {3, 1, 2}, {2, 3, 2}, {2, 2, 5}}
+	shapes := []shape{{1, 3, 2}, {2, 1, 1}, {2, 2, 1}, {2, 2, 2}, {2, 2, 3}, {3, 1, 2}, {2, 3, 2}, {2, 2, 5}, {1, 5, 2}, {1, 6, 1}, {2, 3, 1}}
 	if !q {
 		shapes = append(shapes, shape{3, 2, 2})
 	}
